@@ -1045,3 +1045,9 @@ package erpc
 //@   flags libframe
 //@ trusted Tracef
 //@   flags libframe
+
+// ---- C14: lock discipline of the session's shared fields ---------------------------
+// (status, seq, didCloseNotify are accessed through sync/atomic only; the call
+// command's fields are ordered by its done channel and are not claimed here)
+//@ guarded (*session).sessionAge by sessionAgeLock @C14
+//@ guarded (*session).contextAge by contextAgeLock @C14
